@@ -259,7 +259,7 @@ class Tr:
                 if isinstance(e.slice, ast.Slice):
                     if e.slice.step is not None:
                         raise Unsupported("slice step")
-                    return V("bytes", f"Py.slice {paren(base.lean)} {self.slice_bound(e.slice.lower, st, sc)} "
+                    return V("bytes", f"Py.slice {paren(base.lean)} {self.slice_bound(e.slice.lower, st, sc, lower=True)} "
                                       f"{self.slice_bound(e.slice.upper, st, sc)}")
                 iv = self.expr(e.slice, st, sc)
                 if iv.kind == "int" and iv.const is not None:
@@ -269,7 +269,7 @@ class Tr:
             if isinstance(e.slice, ast.Slice) and self.is_seq(base):
                 if e.slice.step is not None:
                     raise Unsupported("slice step")
-                return V("ints", f"Py.slice {paren(self.seq_term(base))} {self.slice_bound(e.slice.lower, st, sc)} "
+                return V("ints", f"Py.slice {paren(self.seq_term(base))} {self.slice_bound(e.slice.lower, st, sc, lower=True)} "
                                  f"{self.slice_bound(e.slice.upper, st, sc)}")
             if base.kind == "bytesvar":
                 idx = e.slice
@@ -397,10 +397,12 @@ class Tr:
     def is_seq(v):
         return v.kind in ("seq", "ilistexpr", "ints", "bytesvar")
 
-    def slice_bound(self, b, st, sc):
+    def slice_bound(self, b, st, sc, lower=False):
         if b is None:
             return "none"
         v = self.expr(b, st, sc)
+        if lower and v.kind == "int" and v.const == 0:
+            return "none"                      # x[0:n] is x[:n]
         return f"(some {paren(to_int_term(v))})"
 
     def binop(self, op, a, b):
@@ -458,6 +460,24 @@ class Tr:
             if a.kind == "fix" or b.kind == "fix":
                 if isinstance(op, ast.Mult):
                     raise Unsupported("float multiplication")
+                if isinstance(op, ast.Add):
+                    # sums in hundredths in a canonical shape too: non-constant terms in text order, then the constant
+                    def parts(v):
+                        if getattr(v, "fsum_terms", None) is not None:
+                            return list(v.fsum_terms), v.fsum_const
+                        t = to_fix_term(v)
+                        if v.const is not None and v.kind in ("fix", "int"):
+                            return [], (v.const if v.kind == "fix" else v.const * SCALE)
+                        return [t], 0
+                    ta, ca = parts(a)
+                    tb, cb = parts(b)
+                    terms, c = sorted(ta + tb), ca + cb
+                    if not terms:
+                        return V("fix", str(c) if c >= 0 else f"({c})", const=c)
+                    lean = " + ".join(paren(t) for t in terms) + (f" + {c}" if c > 0 else f" - {-c}" if c < 0 else "")
+                    v = V("fix", "(" + lean + ")" if (len(terms) > 1 or c != 0) else terms[0])
+                    v.fsum_terms, v.fsum_const = terms, c
+                    return v
                 return V("fix", f"({to_fix_term(a)} {sym} {to_fix_term(b)})")
             if a.const is not None and b.const is not None and a.kind == b.kind == "int":
                 return lit_int({"+": a.const + b.const, "-": a.const - b.const, "*": a.const * b.const}[sym])
@@ -501,7 +521,7 @@ class Tr:
             if left.kind == "none" or right.kind == "none":
                 raise Unsupported("comparison with None")
             if (left.kind in ("bytes", "optbytes") or right.kind in ("bytes", "optbytes")) and isinstance(op, (ast.Eq, ast.NotEq)):
-                x, y = self.bytes_term(self.unopt(left)), self.bytes_term(self.unopt(right))
+                x, y = sorted([self.bytes_term(self.unopt(left)), self.bytes_term(self.unopt(right))])
                 parts.append(f"decide ({x} {'=' if isinstance(op, ast.Eq) else '≠'} {y})")
                 left = right
                 continue
@@ -516,6 +536,10 @@ class Tr:
             sym = {"Eq": "=", "NotEq": "≠", "Lt": "<", "LtE": "≤", "Gt": ">", "GtE": "≥"}.get(type(op).__name__)
             if sym is None:
                 raise Unsupported("comparison " + type(op).__name__)
+            if sym in ("=", "≠"):
+                x, y = sorted([x, y])              # symmetric: operands in text order
+            elif sym in (">", "≥") and left.kind != "fix" and right.kind != "fix":
+                x, y, sym = y, x, {">": "<", "≥": "≤"}[sym]      # only < and <= remain (ints)
             parts.append(f"decide ({x} {sym} {y})")
             left = right
         return parts[0] if len(parts) == 1 else "(" + " && ".join(parts) + ")"
@@ -677,7 +701,8 @@ class Tr:
         elif isinstance(f, ast.Name):
             qual = f.id
         if qual in ext:
-            lean_fn, kinds, rkind, effectful = ext[qual]
+            lean_fn, kinds, rkind, effectful = ext[qual][:4]
+            commutative = len(ext[qual]) > 4 and ext[qual][4] == "comm"
             if kinds == "input":           # a call whose result is an input of the translated function (randomness, clock)
                 return st[lean_fn]
             if len(args) != len(kinds):
@@ -686,6 +711,8 @@ class Tr:
             for a, k in zip(args, kinds):
                 v = self.unopt(self.expr(a, st, sc))
                 terms.append(paren(self.bytes_term(v) if k == "bytes" else to_int_term(v)))
+            if commutative:
+                terms = sorted(terms)         # f(a, b) = f(b, a): arguments in text order
             term = f"{lean_fn} " + " ".join(terms)
             if effectful:
                 return V(rkind, self.effect(sc, term, "r"))
@@ -1170,7 +1197,7 @@ LAN_SPECS = [
          model="Model.processPacket _local_key packet"),
     dict(name="getLocalKey", file=LAN, func=V3 + "_get_local_key", inputs=[("key", "bytes"), ("data", "bytes")],
          out=("value", "bytes"), rtype="R Bytes", effectful=True, native_bytes=True,
-         externals={"Security.decrypt_aes_cbc": CBC_DEC, "strxor": ("Py.strxor", ["bytes", "bytes"], "bytes", True)},
+         externals={"Security.decrypt_aes_cbc": CBC_DEC, "strxor": ("Py.strxor", ["bytes", "bytes"], "bytes", True, "comm")},
          model="Model.getLocalKey key data"),
     dict(name="packetEncode", file=LAN, func="_Packet.encode",
          inputs=[("device_id", "int"), ("command", "bytes"), ("call:ts", "bytes")],
